@@ -1432,52 +1432,42 @@ impl LpgStore {
         self.needs_stats_recompute.store(true, Ordering::Relaxed);
         let epoch = self.current_epoch();
 
-        // Check if node exists
-        let nodes = self.nodes.read();
-        if let Some(chain) = nodes.get(&node_id) {
-            if chain.visible_at(epoch).map_or(true, |r| r.is_deleted()) {
-                return false;
-            }
-        } else {
-            return false;
+        // `nodes` is held for the whole operation and the other locks are taken in the
+        // documented order (nodes, label catalog, label_index, node_labels): a concurrent
+        // delete_node / remove_label of the same node can neither run between the existence
+        // check and the updates nor between the two index updates, and the lock order is the
+        // one delete_node_at_epoch uses.
+        let mut nodes = self.nodes.write();
+        match nodes.get(&node_id) {
+            Some(chain) if !chain.visible_at(epoch).map_or(true, |r| r.is_deleted()) => {}
+            _ => return false,
         }
-        drop(nodes);
         #[cfg(grafeo_verif)]
-        grafeo_common::verif::yield_point("lpg.add_label.after_check");
+        grafeo_common::verif::yield_point("held:lpg.add_label.nodes");
 
         // Get or create label ID
         let label_id = self.get_or_create_label_id(label);
-        #[cfg(grafeo_verif)]
-        grafeo_common::verif::yield_point("lpg.add_label.after_label_id");
+
+        let mut index = self.label_index.write();
+        let mut node_labels = self.node_labels.write();
 
         // Add to node_labels map
-        let mut node_labels = self.node_labels.write();
         let label_set = node_labels.entry(node_id).or_default();
-
-        if label_set.contains(&label_id) {
+        if !label_set.insert(label_id) {
             return false; // Already has this label
         }
-
-        label_set.insert(label_id);
-        drop(node_labels);
-        #[cfg(grafeo_verif)]
-        grafeo_common::verif::yield_point("lpg.add_label.after_node_labels");
+        let count = label_set.len();
 
         // Add to label_index
-        let mut index = self.label_index.write();
         if (label_id as usize) >= index.len() {
             index.resize(label_id as usize + 1, FxHashMap::default());
         }
         index[label_id as usize].insert(node_id, ());
-        // inside the critical section of label_index (the scheduler stops here only on request)
-        #[cfg(grafeo_verif)]
-        grafeo_common::verif::yield_point("held:lpg.add_label.label_index");
 
         // Update label count in node record
-        if let Some(chain) = self.nodes.write().get_mut(&node_id)
+        if let Some(chain) = nodes.get_mut(&node_id)
             && let Some(record) = chain.latest_mut()
         {
-            let count = self.node_labels.read().get(&node_id).map_or(0, |s| s.len());
             record.set_label_count(count as u16);
         }
 
@@ -1548,18 +1538,14 @@ impl LpgStore {
         self.needs_stats_recompute.store(true, Ordering::Relaxed);
         let epoch = self.current_epoch();
 
-        // Check if node exists
-        let nodes = self.nodes.read();
-        if let Some(chain) = nodes.get(&node_id) {
-            if chain.visible_at(epoch).map_or(true, |r| r.is_deleted()) {
-                return false;
-            }
-        } else {
-            return false;
+        // see add_label: nodes is held throughout, locks in the documented order
+        let mut nodes = self.nodes.write();
+        match nodes.get(&node_id) {
+            Some(chain) if !chain.visible_at(epoch).map_or(true, |r| r.is_deleted()) => {}
+            _ => return false,
         }
-        drop(nodes);
         #[cfg(grafeo_verif)]
-        grafeo_common::verif::yield_point("lpg.remove_label.after_check");
+        grafeo_common::verif::yield_point("held:lpg.remove_label.nodes");
 
         // Get label ID
         let label_id = {
@@ -1569,35 +1555,29 @@ impl LpgStore {
                 None => return false, // Label doesn't exist
             }
         };
-        #[cfg(grafeo_verif)]
-        grafeo_common::verif::yield_point("lpg.remove_label.after_label_id");
+
+        let mut index = self.label_index.write();
+        let mut node_labels = self.node_labels.write();
 
         // Remove from node_labels map
-        let mut node_labels = self.node_labels.write();
-        if let Some(label_set) = node_labels.get_mut(&node_id) {
+        let count = if let Some(label_set) = node_labels.get_mut(&node_id) {
             if !label_set.remove(&label_id) {
                 return false; // Node doesn't have this label
             }
+            label_set.len()
         } else {
             return false;
-        }
-        drop(node_labels);
-        #[cfg(grafeo_verif)]
-        grafeo_common::verif::yield_point("lpg.remove_label.after_node_labels");
+        };
 
         // Remove from label_index
-        let mut index = self.label_index.write();
         if (label_id as usize) < index.len() {
             index[label_id as usize].remove(&node_id);
         }
-        #[cfg(grafeo_verif)]
-        grafeo_common::verif::yield_point("held:lpg.remove_label.label_index");
 
         // Update label count in node record
-        if let Some(chain) = self.nodes.write().get_mut(&node_id)
+        if let Some(chain) = nodes.get_mut(&node_id)
             && let Some(record) = chain.latest_mut()
         {
-            let count = self.node_labels.read().get(&node_id).map_or(0, |s| s.len());
             record.set_label_count(count as u16);
         }
 
